@@ -632,6 +632,8 @@ Definition process (seg : segment) (now : Z) : M bool :=
           let nAdjust := w32 (seq1 + len data1 - rcv_nxt s - avail) in
           if nAdjust <? len data1 then firstn (Z.to_nat (len data1 - nAdjust)) data1 else []
         else data1 in
+      (* data that overtakes the peer's connect segment is left to be retransmitted (seg->len = 0 in LISTEN / SYN-SENT) *)
+      let data2 := if negb (has_flag (g_flags seg) FLAG_CTL) && (st_eqb (state s) LISTEN || st_eqb (state s) SYN_SENT) then [] else data2 in
       let ignore := has_flag (g_flags seg) FLAG_CTL || (negb (support_fin_ack s) && negb (match shutdown s with SD_NONE => true | _ => false end)) in
       dr <- (if len data2 >? 0 then
           if ignore then
